@@ -145,6 +145,7 @@ def _run(ctx, n, nops, rep, concurrent=None):
     cli_hist.linked_shards_probe(ctx, rep, CLI_MINE)
     # and over the remote adapters (B2 by bucket name and by bucket id, S3-compatible) against in-memory fake services
     remote_hist.remote_probe(ctx, rep, ('exception', 'gc_incomplete', 'gc_overreach', 'referenced_chunk_missing'))
+    remote_hist.remote_fault_probe(ctx, rep, ('gc_incomplete',), n=ctx.scale(10, 60))
 
 
 def run(ctx) -> Report:
